@@ -98,6 +98,8 @@ def nfds():
     return len(os.listdir('/proc/self/fd'))
 
 
+GRAVEYARD = []      # abandoned context managers (kept alive on purpose, see rel_force)
+
 OPS = ['acq_nb', 'acq_t0', 'acq_ctx', 'with', 'rel', 'rel_force', 'exit_ctx', 'exit_exc']
 
 
@@ -206,6 +208,12 @@ def run_sequence(seq, reentrant, faults_plan, tmpdir):
                 st_ = ctxs.get((t, o))
                 if not st_:
                     continue
+                if owner[o] is not None and owner[o] != t:
+                    # a stale context manager (its level was already given back by an explicit release) while
+                    # ANOTHER thread holds the lock: leaving it would release that thread's lock, which is outside
+                    # the contract (release is called by the acquiring thread, A-rel)
+                    GRAVEYARD.append(st_.pop())
+                    continue
                 cm = st_.pop()
                 if op == 'exit_ctx':
                     stt, res = workers[t].call(lambda: cm.__exit__(None, None, None))
@@ -230,7 +238,9 @@ def run_sequence(seq, reentrant, faults_plan, tmpdir):
                     break
                 model_release(t, o, force)
                 if force:
-                    ctxs.pop((t, o), None)
+                    # the context managers of the levels just dropped are never left: keep them referenced, a
+                    # garbage-collected acquire_ctx() generator runs its `finally: release()` at a random moment
+                    GRAVEYARD.extend(ctxs.pop((t, o), []))
             # ---- observable state against the model after every operation
             for i in range(2):
                 if objs[i].is_locked != (owner[i] is not None):
